@@ -3,6 +3,7 @@
 //! through the server's private context.
 
 pub mod echo;
+pub mod err;
 pub mod sink;
 pub mod work;
 
@@ -83,6 +84,10 @@ pub fn build_api(sp: &ServerPlan) -> ApiDescription<SimCtx> {
         ApiKind::EchoVersioned => {
             work::register(&mut api);
             echo::register(&mut api, true);
+        }
+        ApiKind::Err | ApiKind::ErrVersioned => {
+            work::register(&mut api);
+            err::register(&mut api);
         }
         ApiKind::Sink => {
             work::register(&mut api);
